@@ -508,12 +508,122 @@ func c20AllOrders(emit func(string)) {
 	}
 }
 
+// Nested fork points below the GHOST (the class of seeded/C19-m2): several forks off the base,
+// a main fork B whose weight is split over a nested fork P1 -> {X1, X2, ..} and a heavier sibling
+// P2, votes only on deep blocks (never on the fork points), weighted voters with one heavy voter,
+// hashes permuted so that the side forks sort on both sides of B, and import orders that put the
+// side-fork votes first (the vote graph's merge-point search then inserts B in the middle of its
+// sorted candidate list).
+func c20NestedCase(r *vu.RNG, emit func(string)) {
+	var parents []uint64
+	add := func(p int) int { parents = append(parents, uint64(p)); return len(parents) }
+	chain := func(from, n int) int {
+		for i := 0; i < n; i++ {
+			from = add(from)
+		}
+		return from
+	}
+	b := chain(0, 1+r.Intn(2))
+	p1 := chain(b, 1+r.Intn(2))
+	xs := []int{chain(p1, 1+r.Intn(2)), chain(p1, 1+r.Intn(2))}
+	if r.Chance(1, 3) {
+		xs = append(xs, chain(p1, 1))
+	}
+	p2 := chain(b, 1+r.Intn(2))
+	y := p2
+	if r.Chance(1, 2) {
+		y = chain(p2, 1)
+	}
+	var sides []int
+	for i, ns := 0, 1+r.Intn(2); i < ns; i++ {
+		sides = append(sides, chain(chain(0, 1), 1+r.Intn(2)))
+	}
+	k := len(parents) + 1
+	// voters: lights on the X's and the side forks (and sometimes the base), one heavy voter on Y
+	type vt struct{ v, b int }
+	var votes []vt
+	var ws []uint64
+	voter := func(w uint64, blk int) {
+		votes = append(votes, vt{len(ws), blk})
+		ws = append(ws, w)
+	}
+	for _, z := range sides {
+		voter(1, z)
+	}
+	for _, x := range xs {
+		voter(1, x)
+	}
+	if r.Chance(1, 2) {
+		voter(1, 0)
+	}
+	heavy := uint64(len(xs) + r.Intn(2))
+	if r.Chance(2, 3) {
+		heavy = uint64(len(xs) + 1)
+	}
+	voter(heavy, y)
+	if len(ws) > 7 {
+		return
+	}
+	// relabel the voters (positions in the voter set)
+	perm := c20Perm(r, len(ws))
+	w2 := make([]uint64, len(ws))
+	for i, w := range ws {
+		w2[perm[i]] = w
+	}
+	for orders := 0; orders < 3; orders++ {
+		labels := c20Perm(r, k)
+		var pv, pc []string
+		for _, ph := range []byte{'p', 'c'} {
+			order := make([]int, len(votes))
+			for i := range order {
+				order[i] = i
+			}
+			if orders > 0 || r.Chance(1, 2) {
+				for i := len(order) - 1; i > 0; i-- {
+					j := r.Intn(i + 1)
+					order[i], order[j] = order[j], order[i]
+				}
+			}
+			for _, i := range order {
+				o := fmt.Sprintf("%c%x.%x.0", ph, perm[votes[i].v], votes[i].b)
+				if ph == 'p' {
+					pv = append(pv, o)
+				} else {
+					pc = append(pc, o)
+				}
+			}
+		}
+		var ops []string
+		switch r.Intn(3) {
+		case 0:
+			ops = append(append(ops, pv...), pc...)
+		case 1:
+			ops = append(append(ops, pc...), pv...)
+		default: // interleaved, each phase keeping its order
+			i, j := 0, 0
+			for i < len(pv) || j < len(pc) {
+				if j >= len(pc) || (i < len(pv) && r.Chance(1, 2)) {
+					ops = append(ops, pv[i])
+					i++
+				} else {
+					ops = append(ops, pc[j])
+					j++
+				}
+			}
+		}
+		emit(c20Case(parents, labels, w2, strings.Join(ops, ",")))
+	}
+}
+
 func c20Gen(r *vu.RNG, n int, emit func(string)) {
+	for i := 0; i < n/8; i++ { // 3 histories each
+		c20NestedCase(r.Fork(), emit)
+	}
 	if vu.Thorough() {
 		c20AllOrders(emit)
 		c20Exhaustive(r.Fork(), 600000, emit)
 	}
-	for i := 0; i < n; i++ {
+	for i := 0; i < n-3*(n/8); i++ {
 		k := 1 + r.Intn(8)
 		if r.Chance(1, 10) {
 			k = 1 + r.Intn(12)
